@@ -119,3 +119,31 @@ c04_gumbel!(c04_gumbel_f64, f64);
 //@ bounds: every pair of f32 bit patterns
 //@ assumes: none
 c04_gumbel!(c04_gumbel_f32, f32);
+
+// ---- C14: frame condition ---------------------------------------------------------------------
+// Every write in the call tree of sample() is checked by CBMC's assigns-clause instrumentation against
+// {the RNG, locals}.  A cached spare variate behind a Cell, a static counter, any write through &self
+// makes "Check that ... is assignable" fail.
+#[kani::modifies(rng)]
+#[kani::ensures(|r: &f64| true)]
+fn frame_gumbel_f64(d: &Gumbel<f64>, rng: &mut SymRng) -> f64 {
+    d.sample(rng)
+}
+
+//@ id: c14_frame_gumbel_f64
+//@ prop: C14
+//@ tier: quick
+//@ cap: 600
+//@ funcs: Gumbel::<f64>::sample (every write in its call tree)
+//@ bounds: arbitrary Gumbel value (fields any f64), arbitrary RNG state, 1 word
+//@ assumes: libm::log by contract
+#[kani::proof_for_contract(frame_gumbel_f64)]
+#[kani::stub(libm::log, c_ln64)]
+fn c14_frame_gumbel_f64() {
+    let d = Gumbel::<f64> { location: kani::any(), scale: kani::any() };
+    let before = (d.location.to_bits(), d.scale.to_bits());
+    let mut rng = SymRng::new(2);
+    let _ = frame_gumbel_f64(&d, &mut rng);
+    vassert!(before == (d.location.to_bits(), d.scale.to_bits()), "sampling changed the distribution value");
+    kani::cover!(rng.pos == 1, "sample returned");
+}
